@@ -130,6 +130,7 @@ func VerifyFunc(w *World, rel string, c *Contract, fn *ssa.Function) *FuncReport
 			for _, l := range st2.locks {
 				x.oblige(st2, "lock", "held at return: "+l.guard.Struct+"."+l.guard.Mutex, "", FalseT, fn.Pos())
 			}
+			x.checkFrame(st2, c, fn, args, "return")
 		}
 		pan := func(st2 *State) {
 			x.npathsDone++
@@ -138,6 +139,7 @@ func VerifyFunc(w *World, rel string, c *Contract, fn *ssa.Function) *FuncReport
 			for i, p := range fn.Params {
 				env.vars[p.Name()] = args[i]
 			}
+			x.checkFrame(st2, c, fn, args, "panic")
 			if c.NoPanic != nil {
 				x.oblige(st2, "nopanic", c.NoPanic.Label, strings.Join(lastPanicTrace(st2.trace), ";"), FalseT, fn.Pos())
 				return
@@ -185,6 +187,95 @@ func VerifyFunc(w *World, rel string, c *Contract, fn *ssa.Function) *FuncReport
 	rep.LoopsInv = len(c.Loops)
 	rep.Secs = time.Since(t0).Seconds()
 	return rep
+}
+
+// checkFrame: the function's `modifies` clause is an obligation on its body.
+// Every heap array the body touched must, at exit, agree with its entry
+// version on all objects that existed at entry and are not named by the
+// clause; a whole-heap havoc inside the body (unknown callee) needs
+// `modifies heap` (or `heap except P`, which keeps the arrays with prefix P
+// under the same rule). A function without a modifies clause is applied at
+// call sites as "may change everything", so there is nothing to check.
+func (x *Exec) checkFrame(st *State, c *Contract, fn *ssa.Function, args []Value, where string) {
+	if !c.HasMod && !c.Pure {
+		return
+	}
+	if st.dead {
+		return
+	}
+	full := false
+	var except []string
+	mods := map[string][]Term{}
+	env := x.envFor(st, -1, false)
+	env.pkg = x.pkg
+	env.heap, env.epoch, env.now = map[string]Term{}, 0, x.decls.Const("now@entry", "Int")
+	for i, p := range fn.Params {
+		env.vars[p.Name()] = args[i]
+	}
+	for _, m := range c.Modifies {
+		m = strings.TrimSpace(m)
+		if m == "heap" {
+			full = true
+			continue
+		}
+		if strings.HasPrefix(m, "heap except ") {
+			full = true
+			for _, p := range strings.Fields(m[len("heap except "):]) {
+				if p == "private" {
+					except = append(except, x.w.privatePrefixes()...)
+				} else {
+					except = append(except, p)
+				}
+			}
+			continue
+		}
+		x.resolveModifies(st, env, m, mods, "modifies of "+c.Key)
+	}
+	protected := func(name string) bool {
+		if strings.HasPrefix(name, "G$") {
+			return true
+		}
+		if !full {
+			return true
+		}
+		for _, p := range except {
+			if strings.HasPrefix(name, p) {
+				return true
+			}
+		}
+		return false
+	}
+	if st.epoch != 0 && !full {
+		x.oblige(st, "frame", "whole heap (unknown callee) but the contract does not say `modifies heap`", where, FalseT, fn.Pos())
+		return
+	}
+	entryNow := x.decls.Const("now@entry", "Int")
+	for _, name := range sortedKeys(x.heapSorts) {
+		if !protected(name) {
+			continue
+		}
+		sortS := x.heapSorts[name]
+		cur := x.heapGet(st, name, sortS)
+		was := x.heapInit(name, sortS, 0)
+		if cur.S == was.S {
+			continue
+		}
+		objs, listed := mods[name]
+		if listed && (objs == nil || !strings.HasPrefix(sortS, "(Array Ref")) {
+			continue // ghost variable / scalar named in the clause
+		}
+		if !strings.HasPrefix(sortS, "(Array Ref") {
+			x.oblige(st, "frame", name, where, Eq(cur, was), fn.Pos())
+			continue
+		}
+		var ds []string
+		for _, o := range objs {
+			ds = append(ds, fmt.Sprintf("(distinct ?r %s)", o.S))
+		}
+		goal := Term{fmt.Sprintf("(forall ((?r Ref)) (! (=> (and (< (atime ?r) %s) %s) (= (select %s ?r) (select %s ?r))) :pattern ((select %s ?r))))",
+			entryNow.S, "(and true "+strings.Join(ds, " ")+")", cur.S, was.S, cur.S), "Bool"}
+		x.oblige(st, "frame", name, where, goal, fn.Pos())
+	}
 }
 
 func lastPanicTrace(tr []string) []string {
